@@ -188,7 +188,7 @@ def work(arg):
         case = {"bname": bname, "b": b.hex(), "s1name": s1n, "s1": s1.hex() if s1 is not None else None, "s2name": s2n,
                 "s2": s2.hex() if s2 is not None else None, "tmark": tmark, "seq": seq}
         dmg = (s1n.split(":")[-1].split("=")[0].rstrip("0123456789[],-+") or "x")
-        klass = {"check": "C08", "damage": dmg, "op": seq[0]}
+        klass = {"check": "C08", "damage": dmg, "op": seq[0] if seq[0] != "n" else "n+" + seq.split(",")[-1][0]}
         pl = c.first("P")
         if not c.done or pl is None:
             res["viol"].append((dict(klass, predicate="crash-or-hang"), "%s <- %s mark %s seq %s: %s" % (bname, s1n, tmark, seq, c.status()), case))
@@ -211,6 +211,11 @@ def work(arg):
             si = 0 if q["op"][1] == "1" else 1
             ps = sparse((s1, s2)[si])
             t1 = core.unhex(q["tfile"])
+            if q["op"][0] == "n":
+                if t1 != t_prev or q["flags"] != flags:
+                    bad = ("option-call-modified-target", "step %s (%s)" % (q["step"], q["op"]))
+                    break
+                continue
             if q["op"][0] == "c":
                 triples = {(x.digest, x.clen, x.ulen) for x in ps.chunks} if ps else set()
                 bad = judge_copy(pb, ext, flags, t_prev, q["flags"], t1, triples)
@@ -276,7 +281,11 @@ def run(ctx):
                     ms = [mk[0]] if light else mk
                     cases = [(m, "c1") for m in ms]
                     if dn == "intact":
-                        cases += [(mk[0], "c1,c1"), (mk[0], "m1"), (mk[-1], "m1")]
+                        cases += [(mk[0], "c1,c1"), (mk[0], "m1"), (mk[-1], "m1"), (mk[0], "n1,c1")]
+                    if not light:
+                        # ZCK_NO_WRITE set on the target context (accepted by read contexts): whatever the copy then marks
+                        # valid or failed must still be true of the bytes in the file
+                        cases += [(mk[0], "nt,c1"), (mk[len(mk) // 2], "nt,c1")]
                     groups.append(("%s:%s:%s" % (aw, cfg.name(), dn), da, "-", None, cases))
             for ch in core.chunks(groups, 60):
                 jobs.append(("%s:%s" % (bw, cfg.name()), b, ch))
